@@ -186,7 +186,7 @@ Proof. induction l; simpl; intros; auto. apply IHl. apply p_wfs_ep_check; auto. 
 Lemma p_wfs_ep_poll c s desc : p_wfs s -> p_wfs (p_ep_poll c s desc).
 Proof.
   intros W. unfold p_ep_poll.
-  destruct (p_ep_ready c s (if desc then rev (seq 0 (length c)) else seq 0 (length c))); [exact W|].
+  destruct (p_ep_batch c s (if desc then rev (seq 0 (length c)) else seq 0 (length c))); [exact W|].
   pose proof (p_wfs_fold_check c (p :: l) s W) as (B & W1 & W2 & W3 & W4).
   set (s1 := fold_left (p_ep_check c) (p :: l) s) in *. clearbody s1.
   split; simpl; auto. unfold p_wf; simpl. split; [|split; [|split]]; auto.
